@@ -197,6 +197,8 @@ def check_blend(ctx, rep):
                 what = "blendPlacement(%s, %s, %s)" % (names[0], names[1], wtxt[-40:])
                 if m and m2 and m.group(1) == m2.group(1) and okw:
                     rep.holds("QB", x, fn, what)
+                elif not (re.search(r"LB_?$", names[0]) or re.search(r"UB_?$", names[0]) or re.search(r"LB_?$", names[1]) or re.search(r"UB_?$", names[1])):
+                    rep.unknown("QB", x, fn, what, "arguments are not recognisable lower/upper-bound placements (members renamed?)")
                 else:
                     why = []
                     if not (m and m2):
@@ -257,15 +259,20 @@ def check_spread(ctx, rep):
     if len(fs) != 1:
         raise AnalysisBroken("spreadCells not found")
     f = fs[0]
-    mn = [p for p in f.params if p.get("name") == "minCoord"]
-    mx = [p for p in f.params if p.get("name") == "maxCoord"]
+    fl = [p for p in f.params if qt(p).replace("const ", "").strip() in ("float", "double")]
+    mn, mx = fl[:1], fl[1:2]      # the two scalar parameters: lower and upper limit of the bin
+    rets = [canon(children(y)[0]) for y in walk(f.body) if y.get("kind") == "ReturnStmt" and children(y)]
+    rv = rets[-1] if rets else None
     ws = [x for x in walk(f.body) if x.get("kind") == "BinaryOperator" and x.get("opcode") == "=" and canon(children(x)[0])[0] == "index"
-          and canon(children(x)[0])[1][0] == "var" and canon(children(x)[0])[1][2] == "coords"]
+          and canon(children(x)[0])[1] == rv]
     if not ws or not mn or not mx:
         rep.unknown("SB", f.decl, f, "spread formula", "coordinate store not found")
     for x in ws:
         e = canon(children(x)[1])
-        atoms = {"d": lambda c: c[0] == "var" and c[2] == "dem", "lo": lambda c: c[0] == "var" and c[2] == "minCoord", "hi": lambda c: c[0] == "var" and c[2] == "maxCoord"}
+        lo_id, hi_id = mn[0].get("id"), mx[0].get("id")
+        pids = {q.get("id") for q in f.params}
+        atoms = {"lo": lambda c: c[0] == "var" and c[1] == lo_id, "hi": lambda c: c[0] == "var" and c[1] == hi_id,
+                 "d": lambda c: c[0] == "var" and c[1] not in pids}
         p = poly(e, atoms)
         if p == {("lo",): 1.0, ("d", "lo"): -1.0, ("d", "hi"): 1.0}:
             rep.holds("SB", x, f, "coordinate = dem*maxCoord + (1-dem)*minCoord (convex combination of the bin limits)")
